@@ -1608,11 +1608,11 @@ func (m *metadataAPI) electNewPartitionLeader(ctx context.Context, partition *pa
 		return status.New(codes.FailedPrecondition, "No ISR candidates")
 	}
 	var (
-		candidates = make([]string, 0, len(isr)-1)
-		leader, _  = partition.GetLeader()
+		candidates       = make([]string, 0, len(isr)-1)
+		oldLeader, epoch = partition.GetLeader()
 	)
 	for _, candidate := range isr {
-		if candidate == leader {
+		if candidate == oldLeader {
 			continue
 		}
 		candidates = append(candidates, candidate)
@@ -1623,7 +1623,7 @@ func (m *metadataAPI) electNewPartitionLeader(ctx context.Context, partition *pa
 	}
 
 	// Select a new leader.
-	leader = m.selectPartitionLeader(candidates)
+	leader := m.selectPartitionLeader(candidates)
 
 	// Replicate leader change through Raft.
 	op := &proto.RaftLog{
@@ -1636,7 +1636,7 @@ func (m *metadataAPI) electNewPartitionLeader(ctx context.Context, partition *pa
 	}
 
 	// Wait on result of replication.
-	future, err := m.getRaft().applyOperation(ctx, op, m.checkChangeLeaderPreconditions)
+	future, err := m.getRaft().applyOperation(ctx, op, m.checkChangeLeaderPreconditions(oldLeader, epoch))
 	if err != nil {
 		return status.Newf(codes.FailedPrecondition, "%s", err.Error())
 	}
@@ -2041,27 +2041,36 @@ func (m *metadataAPI) checkResumeStreamPreconditions(op *proto.RaftLog) error {
 }
 
 // checkShrinkISRPreconditions checks if the partition whose ISR is being
-// shrunk exists. If the stream doesn't exist, it returns ErrStreamNotFound. If
-// the partition doesn't exist, it returns ErrPartitionNotFound. Otherwise, it
-// returns nil.
+// shrunk exists and if the request was made by its current leader. If the
+// stream doesn't exist, it returns ErrStreamNotFound. If the partition doesn't
+// exist, it returns ErrPartitionNotFound. If the leader or leader epoch are
+// not current, it returns an error. Otherwise, it returns nil.
 func (m *metadataAPI) checkShrinkISRPreconditions(op *proto.RaftLog) error {
-	return m.partitionExists(op.ShrinkISROp.Stream, op.ShrinkISROp.Partition)
+	req := op.ShrinkISROp
+	return m.checkPartitionLeader(req.Stream, req.Partition, req.Leader, req.LeaderEpoch)
 }
 
 // checkExpandISRPreconditions checks if the partition whose ISR is being
-// expanded exists. If the stream doesn't exist, it returns ErrStreamNotFound.
-// If the partition doesn't exist, it returns ErrPartitionNotFound. Otherwise,
-// it returns nil.
+// expanded exists and if the request was made by its current leader. If the
+// stream doesn't exist, it returns ErrStreamNotFound. If the partition doesn't
+// exist, it returns ErrPartitionNotFound. If the leader or leader epoch are
+// not current, it returns an error. Otherwise, it returns nil.
 func (m *metadataAPI) checkExpandISRPreconditions(op *proto.RaftLog) error {
-	return m.partitionExists(op.ExpandISROp.Stream, op.ExpandISROp.Partition)
+	req := op.ExpandISROp
+	return m.checkPartitionLeader(req.Stream, req.Partition, req.Leader, req.LeaderEpoch)
 }
 
-// checkChangeLeaderPreconditions checks if the partition whose leader is being
-// changed exists. If the stream doesn't exist, it returns ErrStreamNotFound.
-// If the partition doesn't exist, it returns ErrPartitionNotFound. Otherwise,
-// it returns nil.
-func (m *metadataAPI) checkChangeLeaderPreconditions(op *proto.RaftLog) error {
-	return m.partitionExists(op.ChangeLeaderOp.Stream, op.ChangeLeaderOp.Partition)
+// checkChangeLeaderPreconditions returns a function which checks if the
+// partition whose leader is being changed exists and if the given leader and
+// leader epoch, i.e. the ones being replaced, are still current. If the stream
+// doesn't exist, it returns ErrStreamNotFound. If the partition doesn't exist,
+// it returns ErrPartitionNotFound. If the leader or leader epoch are not
+// current, it returns an error. Otherwise, it returns nil.
+func (m *metadataAPI) checkChangeLeaderPreconditions(leader string, epoch uint64) func(*proto.RaftLog) error {
+	return func(op *proto.RaftLog) error {
+		req := op.ChangeLeaderOp
+		return m.checkPartitionLeader(req.Stream, req.Partition, leader, epoch)
+	}
 }
 
 // checkCreateConsumerGroupPreconditions checks if the group to be created
@@ -2138,6 +2147,23 @@ func (m *metadataAPI) partitionExists(streamName string, partitionID int32) erro
 	}
 	if partition := stream.GetPartition(partitionID); partition == nil {
 		return ErrPartitionNotFound
+	}
+	return nil
+}
+
+// checkPartitionLeader checks if the given partition exists and has the given
+// leader and leader epoch. If the stream doesn't exist, it returns
+// ErrStreamNotFound. If the partition doesn't exist, it returns
+// ErrPartitionNotFound. If the leader or leader epoch differ, it returns an
+// error describing the mismatch.
+func (m *metadataAPI) checkPartitionLeader(streamName string, partitionID int32, leader string, epoch uint64) error {
+	if err := m.partitionExists(streamName, partitionID); err != nil {
+		return err
+	}
+	currentLeader, currentEpoch := m.GetPartition(streamName, partitionID).GetLeader()
+	if leader != currentLeader || epoch != currentEpoch {
+		return fmt.Errorf("leader generation mismatch, current leader: %s epoch: %d, got leader: %s epoch: %d",
+			currentLeader, currentEpoch, leader, epoch)
 	}
 	return nil
 }
